@@ -227,6 +227,8 @@ def _gen(rng, files):
 def run_shard(spec, ctx):
     _install(ctx)
     rng = random.Random(spec['seed'] + 3)
+    if spec['kind'] == 'suite':
+        return _text.run_repo_suite(ID, ctx)
     it = _text.whole_files(spec, ctx) if spec['kind'] == 'files' else _text.cases(spec, ctx, gen=_gen)
     for v, code, origin in it:
         _judge(ctx, v, code, rng)
@@ -251,9 +253,15 @@ def shards(tier, seed):
     nf = 8
     s += [{'kind': 'files', 'shard': i, 'nshards': nf, 'file_stride': 16 if tier == 'quick' else 1,
            'budget_s': 60 if tier == 'quick' else 900} for i in range(nf)]
+    if tier == 'thorough':
+        s.append({'kind': 'suite'})
     return s
 
 
 def floors(tier):
     return {'evaluations': 4000, 'streams_completed': 4000, 'prefix_splits': 20000, 'contract_evals:split_prefix': 5000,
             'streams_with_ERRORTOKEN': 500, 'streams_with_FSTRING_START': 500, 'prefixes_with_2_part_types': 100}
+
+
+def install_for_suite(ctx):
+    _install(ctx)
